@@ -1,4 +1,5 @@
 (* C14 — Reset makes a used Reader or Writer indistinguishable from a new one. *)
+From V Require Import Prefix.ReaderImpl Window.Dict Flate.Impl Flate.ImplRel Flate.ImplThms Flate.ImplExamples.
 From V Require Import Window.Dict Window.DictSpec Window.DictThms.
 From V Require Import Base.Prelude Life.Reset Life.Writers.
 
@@ -39,3 +40,19 @@ Theorem flate_window_reset_equals_fresh : forall size0 size rec0 pre st0 fin cs,
                   drive st1 cs [] = Ok (lz_decode cs, st').
 Proof. exact reset_equals_fresh. Qed.
 Print Assumptions flate_window_reset_equals_fresh.
+
+(* flate.Reader.Reset at implementation level: the refinement to the RFC 1951 model holds from
+   [fl_reset] of ANY earlier state (whatever the recycled window buffer and decoder tables
+   contain) exactly as from a new Reader - [start_state] covers both: a Reset Reader decodes the
+   next stream as a fresh one does *)
+Theorem flate_reset_reader_decodes_like_a_new_one :
+  forall data bf fills reads st0 sched obs fin,
+    bytes_lt256 data -> start_state data bf fills reads st0 -> fl_run st0 sched = (obs, fin) ->
+    Flate.Spec.ir_err (Flate.Spec.inflate data) = None ->
+    forall e, run_err obs = Some e ->
+      e = EEOF /\ concat_bytes obs = Flate.Spec.ir_out (Flate.Spec.inflate data) /\
+      f_inOff fin = Z.of_N (Flate.Spec.ir_used (Flate.Spec.inflate data)) /\
+      s_pos (p_src (f_rd fin)) = N.to_nat (Flate.Spec.ir_used (Flate.Spec.inflate data)) /\
+      f_outOff fin = zlen (concat_bytes obs).
+Proof. exact flate_impl_refines_rfc1951_valid. Qed.
+Print Assumptions flate_reset_reader_decodes_like_a_new_one.
